@@ -1170,6 +1170,8 @@ func rC07ModeFlow(w *World, r *Report) {
 					}
 				}
 				ru.Check(good, "mode-field/Parse", w.IPos(u.Instr), "Parse passes the root's mode to the real parse", "Parse does not pass the root's mode to parseCLIArgs")
+			case u.Kind == "read" && w.detachedAPI(u.Fn):
+				ru.Present("mode-field/"+n, w.IPos(u.Instr), "read by an entry point that nothing of the library calls")
 			default:
 				ru.Bad("mode-field/"+n, w.IPos(u.Instr), "unexpected "+u.Kind+" of programTree.mode")
 			}
